@@ -121,6 +121,7 @@ Proof.
 Qed.
 
 Section Accept.
+  Set Default Proof Using "Type".
   Variables sha256 ripemd160 keccak256 sha3_256 : list N -> list N.
   Variable blake2b : nat -> list N -> list N.
   Variable valid_pub : list N -> bool.
